@@ -255,11 +255,3 @@ func hasCaseTwin(st reflect.Type, field reflect.StructField) bool {
 	}
 	return false
 }
-
-// declaredDefault returns the default tag of the field (every TagInfo of a field carries it).
-func declaredDefault(tagInfos []TagInfo) string {
-	if len(tagInfos) == 0 {
-		return ""
-	}
-	return tagInfos[0].Default
-}
